@@ -511,6 +511,60 @@ def node_level_steps(rng, doc, sc, limit=6):
     return out
 
 
+def _sibling_pairs(doc):
+    """pairs of boundary positions at the same depth > 0 inside different parents"""
+    ps = boundary_positions(doc)
+    res = []
+    rs = {}
+    for p in ps:
+        try:
+            rs[p] = doc.resolve(p)
+        except ValueError:
+            pass
+    keys = sorted(rs)
+    for i, x in enumerate(keys):
+        for y in keys[i + 1:]:
+            rx, ry = rs[x], rs[y]
+            if rx.depth == ry.depth and rx.depth > 0 and not rx.same_parent(ry):
+                res.append((x, y))
+    return res
+
+
+def join_deletion_steps(rng, doc, k):
+    """deletions whose ends sit at the same depth inside different nodes: the two nodes are joined and the
+    joined node must be re-validated (a list item that would start with a list, a figure with two captions)"""
+    pairs = _sibling_pairs(doc)
+    rng.shuffle(pairs)
+    # prefer ranges that start at the very start of their parent's content (the whole head of the left node goes)
+    pairs.sort(key=lambda xy: 0 if doc.resolve(xy[0]).parent_offset == 0 else 1)
+    return [ReplaceStep(x, y, Slice.empty, False) for x, y in pairs[:k]]
+
+
+def sibling_gap_steps(rng, g, doc, k):
+    """replace-around steps whose gap ends sit at equal depth inside two different siblings (not a flat
+    range) while the step is otherwise consistent: ends of the step at the gap's depth, a two-node slice"""
+    sc = g.schema
+    pairs = _sibling_pairs(doc)
+    rng.shuffle(pairs)
+    out = []
+    ps = boundary_positions(doc)
+    for x, y in pairs[:k]:
+        rx = doc.resolve(x)
+        lo = [p for p in ps if p <= x and doc.resolve(p).depth == rx.depth]
+        hi = [p for p in ps if p >= y and doc.resolve(p).depth == rx.depth]
+        if not lo or not hi:
+            continue
+        par = rx.parent
+        try:
+            kid = (sc.text("X") if par.type.inline_content else None)
+            two = Fragment.from_([par.type.create(par.attrs, kid), par.type.create(par.attrs, kid)])
+            sl = Slice(two, 1, 1)
+            out.append(ReplaceAroundStep(rng.choice(lo[-2:]), rng.choice(hi[:2]), x, y, sl, two.child(0).node_size - 1, False))
+        except ValueError:
+            continue
+    return out
+
+
 def undeclared_attr_step(rng, doc):
     """malformed stream: attribute steps naming an attribute the node does not declare (outside the
     quantifier of C01/C04; model and code must still agree on what happens)"""
